@@ -131,6 +131,7 @@ static int spec_remove(const unsigned char *p, unsigned *ci, cJSON **out)
     return 1;
 }
 
+#define VF_FL(b) ((((b) & 2) ? cJSON_StringIsConst : 0) | (((b) & 4) ? cJSON_IsReference : 0))   /* ownership flag bits: they never change what a node means */
 int main(VF_MAIN_ARGS)
 {
     cJSON_Hooks h; int status; unsigned i, cnt; cJSON *c, *last; long live0; static char pathbuf[PL + 1], frombuf[PL + 1], optxt[8]; cJSON *valnode = 0;
@@ -155,17 +156,17 @@ int main(VF_MAIN_ARGS)
     }
     nexp = n;
     /* ---- the operation object */
-    memset(&op, 0, sizeof op); op.type = cJSON_Object;
+    memset(&op, 0, sizeof op); op.type = cJSON_Object | VF_FL(IN.has >> 4);
     memset(&m_op, 0, sizeof m_op); memset(&m_path, 0, sizeof m_path); memset(&m_value, 0, sizeof m_value); memset(&m_from, 0, sizeof m_from);
     {
         static const char *names[7] = { "xx", "add", "remove", "replace", "move", "copy", "test" };
         cJSON *chain[4]; unsigned cn = 0, j;
         strcpy(optxt, names[OPC]);
         if (OPC == 0) { memcpy(optxt, IN.optext, 7); optxt[7] = 0; VF_ASSUME(strcmp(optxt, "add") != 0 && strcmp(optxt, "remove") != 0 && strcmp(optxt, "replace") != 0 && strcmp(optxt, "move") != 0 && strcmp(optxt, "copy") != 0 && strcmp(optxt, "test") != 0); }   /* every other text, e.g. "added", "Add", "" */
-        m_op.type = (IN.opkind & 1) ? cJSON_Number : cJSON_String; m_op.valuestring = optxt; m_op.string = (char *)"op";
+        m_op.type = ((IN.opkind & 1) ? cJSON_Number : cJSON_String) | VF_FL(IN.opkind); m_op.valuestring = optxt; m_op.string = (char *)"op";
         memcpy(pathbuf, IN.path, PL); pathbuf[PL] = 0; memcpy(frombuf, IN.from, PL); frombuf[PL] = 0;
-        m_path.type = (IN.pathkind & 1) ? cJSON_Number : cJSON_String; m_path.valuestring = (IN.pathkind & 1) ? (char *)0 : pathbuf; m_path.string = (char *)"path";
-        m_from.type = (IN.fromkind & 1) ? cJSON_Number : cJSON_String; m_from.valuestring = (IN.fromkind & 1) ? (char *)0 : frombuf; m_from.string = (char *)"from";
+        m_path.type = ((IN.pathkind & 1) ? cJSON_Number : cJSON_String) | VF_FL(IN.pathkind); m_path.valuestring = (IN.pathkind & 1) ? (char *)0 : pathbuf; m_path.string = (char *)"path";
+        m_from.type = ((IN.fromkind & 1) ? cJSON_Number : cJSON_String) | VF_FL(IN.fromkind); m_from.valuestring = (IN.fromkind & 1) ? (char *)0 : frombuf; m_from.string = (char *)"from";
         m_value.type = cJSON_False; m_value.string = (char *)"value";
         if (IN.has & 1) chain[cn++] = &m_op; if (IN.has & 2) chain[cn++] = &m_path; if (IN.has & 4) chain[cn++] = &m_value; if (IN.has & 8) chain[cn++] = &m_from;
         for (j = 0; j < cn; j++) { if (j) { chain[j - 1]->next = chain[j]; chain[j]->prev = chain[j - 1]; } }
